@@ -221,7 +221,7 @@ def dump_single(s, k):
                       'random_primer_read', 'random_primer_length')}
         d['args']['random_primer_end'] = bool(s.random_primer_end)
         d['capture'] = [sl(x) for x in s.sequenceCapture]
-        d['rp_slice'] = sl(s.random_primer_slice) if hasattr(s, 'random_primer_slice') else None
+        d['rp_slice'] = sl(s.random_primer_slice) if getattr(s, 'random_primer_slice', None) is not None else None
     if k == 4:
         d['rb'] = {a: optint(getattr(s, a)) for a in ('enzymeRead', 'enzymeStart', 'enzymeLength',
                                                       'ispcrRead', 'ispcrStart', 'ispcrLength')}
@@ -230,7 +230,7 @@ def dump_single(s, k):
         d['umi_slices'] = [[sl(x) for x in per] for per in s.umi_slices]
         d['cap_slices'] = [sl(x) for x in s.capture_slices]
         d['rp_read'] = optint(s.random_primer_read)
-        d['rp_slice'] = sl(s.random_primer_slice) if hasattr(s, 'random_primer_slice') else None
+        d['rp_slice'] = sl(s.random_primer_slice) if getattr(s, 'random_primer_slice', None) is not None else None
     if k in (1, 2, 4):
         d['wrapper'], d['traced'] = trace(s)
     return d
@@ -553,7 +553,7 @@ def run_init(a):
             d = UmiBarcodeDemuxMethod(barcodeFileParser=AcceptAll(), barcodeFileAlias='x', indexFileParser=None,
                                       indexFileAlias=None, **a['args'])
         out = {'capture': [sl(x) for x in d.sequenceCapture],
-               'rp_slice': sl(d.random_primer_slice) if hasattr(d, 'random_primer_slice') else None}
+               'rp_slice': sl(d.random_primer_slice) if getattr(d, 'random_primer_slice', None) is not None else None}
     except BaseException as e:
         return {'error': type(e).__name__}
     runs_ = []
